@@ -926,6 +926,16 @@ func runC08(r *Run) {
 				}
 			}
 			r.need(prefixParam != nil, name+"(prefix, subApp)")
+			directCallees := map[*ssa.Function]bool{}
+			for _, b := range mf.Blocks {
+				for _, in := range b.Instrs {
+					if c, ok := in.(*ssa.Call); ok {
+						if g := c.Call.StaticCallee(); g != nil && !strings.HasSuffix(g.Name(), "mount") {
+							directCallees[g] = true
+						}
+					}
+				}
+			}
 			var ups []ssa.Instruction
 			withHelpers(func() {
 				ups = instrsWhere(mf, func(in ssa.Instruction) bool { _, ok := in.(*ssa.MapUpdate); return ok })
@@ -938,7 +948,10 @@ func runC08(r *Run) {
 				slashed := dependsOn(mu.Key, func(v ssa.Value) bool {
 					switch x := v.(type) {
 					case *ssa.BinOp: // "/" + prefix
-						if x.Op == token.ADD && (x.Parent() == nil || x.Parent().Name() != "getGroupPath") { // the slash getGroupPath puts between its two parts is not a leading one
+						// in the mount function itself or in a helper it calls directly — the backward slice is context-insensitive and
+						// reaches the other mount function through getGroupPath's parameters; the slash getGroupPath puts between its
+						// two parts is not a leading one
+						if x.Op == token.ADD && x.Parent() != nil && x.Parent().Name() != "getGroupPath" && (x.Parent() == mf || directCallees[x.Parent()]) {
 							if s, ok := constString(asConst(x.X)); ok && s == "/" {
 								return dependsOn(x.Y, func(y ssa.Value) bool { return y == prefixParam }) != nil
 							}
